@@ -57,6 +57,7 @@ namespace vw
         int share_grid = 0;  // reference worlds (twin / prefix / fresh) are built on the main world's grid object
         int reuse_input = 0; // the caller keeps ONE elevation array object and overwrites it before each update
         int mesh_extra = 0;  // trimesh: points appended after the lattice that no triangle references (isolated nodes)
+        int from_length = 0; // structured grids: built through the from_length factory (total lengths instead of spacing)
         std::size_t size() const
         {
             if (kind == G_TRIMESH)
@@ -144,7 +145,7 @@ namespace vw
         const GridSpec& g = w.grid;
         o << "x grid " << grid_kind_name(g.kind) << " " << g.rows << " " << g.cols << " " << hexd(g.dy) << " " << hexd(g.dx) << " "
           << g.bs[0] << " " << g.bs[1] << " " << g.bs[2] << " " << g.bs[3] << " " << g.mesh_nx << " " << g.mesh_ny << " " << g.mesh_seed
-          << " " << g.mesh_holes << " " << g.share_grid << " " << g.reuse_input << " " << g.mesh_extra << "\n";
+          << " " << g.mesh_holes << " " << g.share_grid << " " << g.reuse_input << " " << g.mesh_extra << " " << g.from_length << "\n";
         for (const auto& ov : g.overrides)
             o << "x status " << ov.first << " " << ov.second << "\n";
         for (const OperatorSpec& s : w.ops)
@@ -198,6 +199,7 @@ namespace vw
                 g.share_grid = t.size() > 14 ? atoi(t[14].c_str()) : 0;
                 g.reuse_input = t.size() > 15 ? atoi(t[15].c_str()) : 0;
                 g.mesh_extra = t.size() > 16 ? atoi(t[16].c_str()) : 0;
+                g.from_length = t.size() > 17 ? atoi(t[17].c_str()) : 0;
                 have_grid = true;
             }
             else if (t[0] == "status" && t.size() >= 3)
